@@ -78,6 +78,16 @@ def build_histories(tier, seed, rnd, uname="core"):
         last = rnd.choice([{"k": "store", "a": rnd.randint(1, n)}] * 4 + [{"k": "reopen", "a": 0}, {"k": "remove", "a": rnd.randint(1, n)},
                           {"k": "vanish", "a": rnd.randint(1, u["nauthors"])}])
         hs.append(dict(ops=pre + [last], cont=cont_for(last)))
+    if uname == "sz":
+        # map geometry: interrupted multi-chunk / boundary stores, then a LONG continuation (every other event stored) so that
+        # the store grows again several times after the recovery
+        for j in range(6 if tier == "quick" else 60):
+            big = rnd.choice([23, 24, 24])
+            pre = [{"k": "store", "a": rnd.randint(1, 22)} for _ in range(rnd.randint(0, 3))]
+            order = list(range(1, n + 1))
+            rnd.shuffle(order)
+            cont = [{"k": "store", "a": i} for i in order] + [{"k": "remove", "a": order[0]}, {"k": "store", "a": order[0]}]
+            hs.append(dict(ops=pre + [{"k": "store", "a": big}], cont=cont))
     for i, h in enumerate(hs):
         h["id"] = i
     return hs, total, u
